@@ -612,7 +612,13 @@ func RuleK8(r *Report, c *Codec) {
 }
 
 // G1: no package-level variable is written outside init
-func RuleG1(r *Report, p *Program) {
+func RuleG1(r *Report, p *Program) { RuleG1In(r, p, "") }
+
+// RuleG1In restricts the inventory to one package of the module ("" = all).
+func RuleG1In(r *Report, p *Program, only string) {
+	keepPkg := func(path string) bool {
+		return only == "" || strings.HasSuffix(path, "/"+only)
+	}
 	r.Rule("G1", "no package-level variable of the library is written outside package initialisation (the fixed-port mutex is the only shared mutable state)", 1)
 	n := 0
 	for _, fn := range p.AllFuncs {
@@ -638,7 +644,7 @@ func RuleG1(r *Report, p *Program) {
 					}
 					break
 				}
-				if g, ok := root.(*ssa.Global); ok && g.Pkg != nil && strings.HasPrefix(g.Pkg.Pkg.Path(), modPath) {
+				if g, ok := root.(*ssa.Global); ok && g.Pkg != nil && strings.HasPrefix(g.Pkg.Pkg.Path(), modPath) && keepPkg(g.Pkg.Pkg.Path()) {
 					r.Bad("G1", shortPkg(g.Pkg.Pkg)+"."+g.Name()+" in "+calleeName(fn), p.Pos(st.Pos()), "package-level variable written at run time")
 				}
 			}
@@ -647,6 +653,9 @@ func RuleG1(r *Report, p *Program) {
 	r.OK("G1", "all-functions", "", fmt.Sprintf("%d instructions scanned", n), true)
 	// package-level mutable state inventory: sync primitives
 	for _, pk := range p.Pkgs {
+		if !keepPkg(pk.PkgPath) {
+			continue
+		}
 		sc := pk.Types.Scope()
 		for _, name := range sc.Names() {
 			v, ok := sc.Lookup(name).(*types.Var)
